@@ -484,6 +484,21 @@ class Proc(object):
 
     def call(self, e, env):
         f = e.func
+        if isinstance(f, ast.Attribute) and f.attr == "_replace" and not e.args and e.keywords:
+            # namedtuple._replace(field = value, ...): the same record with those fields changed
+            bt, bty = self.expr(f.value, env)
+            if isinstance(bty, tuple) and bty[0] == "Rec":
+                fields = self.spec.get("records", {}).get(bty[1], {})
+                ups = []
+                for kw_ in e.keywords:
+                    if kw_.arg not in fields:
+                        raise Untranslatable("_replace of an undeclared field %s" % kw_.arg)
+                    fl, fty = fields[kw_.arg]
+                    ups.append("%s := %s" % (fl, self.coerce(*self.expr(kw_.value, env), fty)))
+                return ("{ %s with %s }" % (bt, ", ".join(ups)), bty)
+        if isinstance(f, ast.Name) and f.id in self.spec.get("const_objects", {}) and not e.args and not e.keywords:
+            # ClassName(): an object without state, declared as a constant (its class attributes are checked against the class statement through const_attrs)
+            return self.spec["const_objects"][f.id]
         if isinstance(f, ast.Attribute) and f.attr == "format" and not e.args and e.keywords and self.spec.get("str_format"):
             # "{a}:{b}".format(a = x, b = y) with text arguments: the concatenation of the pieces
             fmt = self.const_str(f.value, env)
@@ -1466,6 +1481,17 @@ class Proc(object):
                     en = en.copy()
                     en.aliases[tgt.id] = (s.value.func.value.id, key, dty)
                 return txt1 + txt2 + self.block(rest, en, k)
+            if isinstance(s.value, ast.Subscript) and isinstance(s.value.slice, ast.Constant) and isinstance(s.value.slice.value, int) and s.value.slice.value >= 0 \
+                    and self.spec.get("index_error") and self.ret[0] == "Except" and isinstance(tgt, ast.Name) and self.seg(s.value) not in env.facts:
+                try:
+                    lt_, lty_ = self.expr(s.value.value, env)
+                except Untranslatable:
+                    lt_, lty_ = None, None
+                if isinstance(lty_, tuple) and lty_[0] == "List":
+                    # x = xs[k] with a constant k: Python raises IndexError when the list is shorter - the declared error constructor
+                    n = env.fresh("item")
+                    txt, en = self.assign_name(tgt, n, lty_[1], env)
+                    return "(match %s[%d]? with\n| some %s => %s%s\n| none => (.error %s))" % (lt_, s.value.slice.value, n, txt, self.block(rest, en, k), self.spec["index_error"])
             vt, vty = self.expr(s.value, env)
             if isinstance(vty, tuple) and vty[0] == "Except":
                 # binding the result of a raising proc: propagate the error
@@ -1550,15 +1576,20 @@ class Proc(object):
             else:
                 raise Untranslatable("try handler shape")
             return "(match (%s %s) with\n| some %s => %s\n| none => %s)" % (lname, " ".join(args), n, self.wrap_ret(n, rty), other)
+        def _hnames(h_):
+            return [h_.type.id] if isinstance(h_.type, ast.Name) else ([x_.id for x_ in h_.type.elts] if isinstance(h_.type, ast.Tuple) and all(isinstance(x_, ast.Name) for x_ in h_.type.elts) else [None])
         if isinstance(s, ast.Try) and self.spec.get("exc_classes") and not s.orelse and not s.finalbody and s.handlers \
-                and all(isinstance(h.type, ast.Name) and h.type.id in self.spec["exc_classes"] for h in s.handlers) and self.ret[0] == "Except":
+                and all(all(n_ in self.spec["exc_classes"] for n_ in _hnames(h)) for h in s.handlers) and self.ret[0] == "Except":
             # try: <statements calling raising functions of another error type>  except ClassA as a: ... except ClassB: ...
             # spec["exc_classes"]: exception class -> the inner error constructor it stands for, or "*" for a class every inner error belongs to (a base class).
             # Handlers are tried in the order written; an error no handler takes would propagate unchanged in Python - here that needs a catch-all (else untranslatable).
             ev = env.fresh("exc")
             arms, caught_all = [], False
             for h in s.handlers:
-                tag = self.spec["exc_classes"][h.type.id]
+                tags_ = set(self.spec["exc_classes"][n_] for n_ in _hnames(h))
+                if len(tags_) != 1:
+                    raise Untranslatable("classes of one except clause stand for different errors")
+                tag = tags_.pop()
                 saved = getattr(self, "try_handler", None)
                 self.try_handler = None                      # a raise inside a handler is not caught by this try
                 try:
@@ -1570,7 +1601,11 @@ class Proc(object):
                     caught_all = True
                     break
             if not caught_all:
-                raise Untranslatable("try without a handler for the remaining errors")
+                # errors no clause takes leave the function as they are: declared, constructor by constructor (spec["exc_passthrough"])
+                if not self.spec.get("exc_passthrough"):
+                    raise Untranslatable("try without a handler for the remaining errors")
+                for inner_, outer_ in self.spec["exc_passthrough"]:
+                    arms.append("| %s => (.error %s)" % (inner_, outer_))
             dispatch = "(match %s with\n%s)" % (ev, "\n".join(arms))
             outer = getattr(self, "try_handler", None)
             self.try_handler = (ev, dispatch)
@@ -2078,6 +2113,8 @@ PROCS = [
          params=[("potentials", ("List", ("Rec", "PotRec"))), ("cutoff", "Rat"), ("gridPoints", "Int"), ("out", "Stream")], ret=("Except", "WErr", "Stream"), records=POT_REC, methods=POT_METHODS),
     dict(name="r_value_iterator", file="pair_tabulation.py", func="_r_value_iterator", generator=True,
          params=[("tabulation", ("Rec", "TabRec"))], ret=("List", "Rat"), records=TAB_REC),
+    dict(name="rho_value_iterator", file="eam_tabulation.py", func="_rho_value_iterator", generator=True,
+         params=[("tabulation", ("Rec", "EamTabRec"))], ret=("List", "Rat"), records=EAMTAB_REC),
     dict(name="gulp_write_pot", file="pair_tabulation.py", func="GULP_PairTabulation._write_pot", writer=True, inout="fp",
          params=[("self", ("Rec", "TabRec")), ("pot", ("Rec", "PotRec")), ("fp", "Stream")], ret="Stream", records=dict(POT_REC, **TAB_REC), methods=POT_METHODS),
     dict(name="gulp_write", dest=True, file="pair_tabulation.py", func="GULP_PairTabulation.write", writer=True, inout="fp",
@@ -2287,6 +2324,31 @@ PROCS = [
          implicit=[("createTabulation", ("Fun", [("Rec", "FactoryObj"), ("Rec", "CpT")], ("Except", "TargetErr", ("Rec", "TabulationObj"))))],
          methods={("FactoryObj", "create_tabulation"): ("createTabulation", [("Rec", "CpT")], ("Except", "TargetErr", ("Rec", "TabulationObj")))},
          raises=[("unknown tabulation target specified", "TargetErr.unknownTarget")]),
+    # ---- C10 / C16: the glue of the spline() modifier: which part is which, where the spline detaches and attaches, what is refused
+    dict(name="spline_modifier", file="_modifiers.py", func="spline", drop_logging=True, index_error="SplErr.indexError",
+         params=[("potential_forms", ("List", ("Rec", "PInstS"))), ("potential_form_builder", "Unit")], ret=("Except", "SplErr", ("Rec", "SplObj")),
+         records={"PInstS": {"has_modifier": ("isModifier", "Bool"), "has_potential_form": ("isForm", "Bool"), "modifier": ("name", "Str"), "potential_form": ("name", "Str"),
+                             "parameters": ("parameters", ("List", "Rat")), "start": ("start", ("Rec", "StartRec")), "next": ("next", ("Opt", ("Rec", "PInstS")))},
+                  "StartRec": {"start": ("start", "Rat"), "range_type": ("range_type", "Str")}, "SplFactory": {"spline_keyword": ("spline_keyword", "Str")},
+                  "SplPoint": {}, "SplCore": {}, "SplObj": {}, "FnObj2": {}},
+         const_objects={"_Exp_Spline_Factory": ("expSplineFactory", ("Rec", "SplFactory")), "_Buck4_Spline_Factory": ("buck4SplineFactory", ("Rec", "SplFactory"))},
+         const_attrs={"_Exp_Spline_Factory.spline_keyword": ('"exp_spline"', "Str", "_modifiers.py"), "_Buck4_Spline_Factory.spline_keyword": ('"buck4_spline"', "Str", "_modifiers.py")},
+         neg_inf=("negInf", "Rat"), rec_constructors={"MultiRangeDefinitionTuple": ("StartRec", ["Str", "Rat"]), "Spline_Point": ("SplPoint", [("Rec", "FnObj2"), "Rat"])},
+         implicit=[("negInf", "Rat"), ("mkFn", ("Fun", [("Rec", "PInstS")], ("Rec", "FnObj2"))),
+                   ("buildSpline", ("Fun", [("Rec", "SplFactory"), ("Rec", "SplPoint"), ("Rec", "SplPoint"), ("Rec", "PInstS")], ("Except", "SplBuildErr", ("Rec", "SplCore")))),
+                   ("mkSplinePotential", ("Fun", [("Rec", "SplCore")], ("Rec", "SplObj")))],
+         seg_ops={"potential_form_builder.create_potential_function": ("mkFn", [("Rec", "PInstS")], ("Rec", "FnObj2"))},
+         methods={("SplFactory", "build_spline"): ("buildSpline", [("Rec", "SplPoint"), ("Rec", "SplPoint"), ("Rec", "PInstS")], ("Except", "SplBuildErr", ("Rec", "SplCore")))},
+         ops={"Custom_SplinePotential": ("mkSplinePotential", [("Rec", "SplCore")], ("Rec", "SplObj"))},
+         exc_classes={"ArithmeticError": "SplBuildErr.arithmetic", "ValueError": "SplBuildErr.arithmetic", "ImportError": "SplBuildErr.importError"},
+         exc_passthrough=[("SplBuildErr.config", "SplErr.config")],
+         raises=[("only accepts a single multi range potential definition", "SplErr.notOneArgument"), ("only one specified", "SplErr.onlyOne"),
+                 ("was found instead\".format(\n      \",\".join", "SplErr.middleIsModifier"), ("The modifier '{}' was found instead", "SplErr.middleIsModifier"),
+                 ("'{}' was found instead", "SplErr.unknownSplineType"),
+                 ("only two specified", "SplErr.onlyTwo"), ("more than three have been given", "SplErr.moreThanThree"),
+                 ("Start of 1st potential should be less than start of 2nd", "SplErr.firstNotBelowSecond"),
+                 ("should be less than start of 3rd", "SplErr.secondNotBelowThird"),
+                 ("cannot join its potentials", "SplErr.cannotJoin"), ("an additional package is required", "SplErr.needsPackage")]),
     # ---- C13: species filter
     dict(name="check_tuple", file="config/_filtered_config_parser.py", func="FilteredConfigParser._check_tuple",
          params=[("self._self_species_list", ("List", "Str")), ("self._self_exclude_flag", "Bool"), ("check_tuple", ("List", "Str"))], ret="Bool"),
@@ -2876,6 +2938,41 @@ structure FnObj2 where
 deriving Repr, DecidableEq
 inductive ModErr where
   | noArguments
+deriving DecidableEq, Repr
+
+/-- a definition as the `spline()` modifier receives it: every part read from a file carries its range start (`>0` when none is written) -/
+structure PInstS where
+  isModifier : Bool
+  name : String
+  parameters : List Rat
+  start : StartRec
+  next : Option PInstS
+deriving Repr
+def PInstS.isForm (p : PInstS) : Bool := !p.isModifier
+/-- `_Exp_Spline_Factory()` / `_Buck4_Spline_Factory()`: objects without state, told apart by their `spline_keyword` -/
+structure SplFactory where
+  spline_keyword : String
+deriving Repr, DecidableEq
+def expSplineFactory : SplFactory := ⟨"exp_spline"⟩
+def buck4SplineFactory : SplFactory := ⟨"buck4_spline"⟩
+/-- `Spline_Point(potential, r)` -/
+structure SplPoint where
+  fn : FnObj2
+  r : Rat
+deriving Repr, DecidableEq
+structure SplCore where
+  id : Nat
+deriving Repr, DecidableEq
+structure SplObj where
+  core : SplCore
+deriving Repr, DecidableEq
+/-- what `build_spline` may raise -/
+inductive SplBuildErr where
+  | config | arithmetic | importError
+deriving DecidableEq, Repr
+inductive SplErr where
+  | notOneArgument | onlyOne | middleIsModifier | unknownSplineType | onlyTwo | moreThanThree | firstNotBelowSecond | secondNotBelowThird
+  | cannotJoin | needsPackage | config | indexError
 deriving DecidableEq, Repr
 
 /-- `itertools.permutations(xs, 2)`: the ordered pairs of items at two different positions, first position outermost, both in the list's order -/
